@@ -362,7 +362,7 @@ class History:
         u = op['u']
         d, files = self.materialize(op)
         self.set_clock(op)
-        prof = self.W.profile(crash_at=op.get('crash_at'),
+        prof = self.W.profile(crash_at=op.get('crash_at'), exists_lies_p=self.case.get('exists_lies_p', 0.0),
                               crash_commit_inflight=substream(self.case['sched_seed'], f'crash{self.opi}') if 'crash_at' in op else None)
         r = self.W.snapshot(self.clients[u], [d], self.opts, note=op.get('note'), profile=prof)
         self.opres['r'] = r
@@ -1197,6 +1197,8 @@ def _tree_summary(t):
 def _op_summary(o):
     if o['op'] == 'par':
         return ['par', _op_summary(o['a']), _op_summary(o['b'])]
+    if o['op'] == 'pair':
+        return ['pair', o['ua'], 'restore', o['ub'], o['kb'], 'cold' if o.get('cold') else 'as-is']
     if o['op'] == 'snapshot':
         return ['snapshot', o['u'], len(o['files'])] + ([f'crash@{o["crash_at"]}'] if 'crash_at' in o else [])
     return [o['op'], o['u']] + [o[k] for k in ('pick', 'snapshot_regex', 'file_regex', 'what') if k in o]
@@ -1241,4 +1243,4 @@ def shrink_history(case):
 def _uses(o, u):
     if o['op'] == 'par':
         return _uses(o['a'], u) or _uses(o['b'], u)
-    return o.get('u') == u or o.get('other') == u
+    return o.get('u') == u or o.get('other') == u or o.get('ua') == u or o.get('ub') == u
